@@ -26,6 +26,13 @@ class SimTag(object):
         self.ncmd = 0            # all commands received (state-changing or not)
         self.mute = False        # went mute on an unsupported command; needs sense()
 
+    def is_write(self, data):
+        """is this a state-changing command (WRITE of either tag type)"""
+        data = bytes(data)
+        if isinstance(self, T2TSim):
+            return len(data) == 6 and data[0] == 0xA2 and not self.pending_sector
+        return (len(data) == 7 and data[0] in (0x53, 0x1A)) or (len(data) == 14 and data[0] in (0x54, 0x1B))
+
     def changing(self):
         """called before a state-changing command is executed: power budget"""
         if self.cut_after is not None and len(self.log) >= self.cut_after:
@@ -175,12 +182,35 @@ class T1TSim(SimTag):
 
 
 class FakeClf(object):
-    """what a tag object needs of a ContactlessFrontend: exchange() and sense()"""
+    """what a tag object needs of a ContactlessFrontend: exchange() and sense().
+
+    A *transient fault* can be armed with fault(k, kind, executed): the k-th state-changing command the tag
+    would execute from now on (k = 1: the next one) fails `tries` times in a row with the given
+    nfc.clf.CommunicationError subclass - either lost on the way to the tag (executed=False) or executed
+    by the tag with only the response lost (executed=True); afterwards the tag answers again."""
 
     def __init__(self, tag):
         self.tag = tag
+        self._fault = None
+
+    def fault(self, k, kind=nfc.clf.TimeoutError, executed=False, tries=3):
+        self._fault = dict(at=len(self.tag.log) + k, kind=kind, executed=executed, left=tries, done=False)
 
     def exchange(self, data, timeout):
+        f = self._fault
+        if f is not None and not self.tag.dead and self.tag.is_write(data):
+            nxt = len(self.tag.log) + (0 if f['done'] else 1)
+            if nxt == f['at']:
+                if f['executed'] and not f['done']:
+                    try:
+                        self.tag.command(data)
+                    except nfc.clf.CommunicationError:
+                        pass
+                    f['done'] = len(self.tag.log) >= f['at']
+                f['left'] -= 1
+                if f['left'] <= 0:
+                    self._fault = None
+                raise f['kind']("transient fault")
         return self.tag.command(data)
 
     def sense(self, *targets, **kw):
